@@ -8,6 +8,7 @@ package main
 // back (store snapshot + GET /messages).
 
 import (
+	"errors"
 	"bytes"
 	"encoding/base64"
 	"encoding/json"
@@ -40,6 +41,8 @@ type pubSetup struct {
 	Payload string            `json:"payload_b64"`
 	Headers map[string]string `json:"headers"`
 	Cancel  bool              `json:"cancel"`
+	MayBeRefused bool         `json:"may_be_refused"` // the enqueue may be answered ErrQueueFull (and then stores nothing)
+	CancelOnly   bool         `json:"cancel_only"`    // no enqueue: cancel the message of that id stored by an earlier entry
 }
 
 type pubRequest struct {
@@ -323,7 +326,18 @@ func publishGroup(dir string, g pubGroup) (out pubGroupOut) {
 		if su.Recv != 0 {
 			env.ReceivedAt = time.Unix(0, su.Recv).UTC()
 		}
+		if su.CancelOnly {
+			// a message stored earlier in the set-up is canceled now (frees a slot after the queue has been full)
+			if _, err := raw.CancelMessages(queue.MessageCancelRequest{IDs: []string{su.ID}}); err != nil {
+				out.Err = "setup cancel: " + err.Error()
+				return
+			}
+			continue
+		}
 		if err := raw.Enqueue(env); err != nil {
+			if su.MayBeRefused && errors.Is(err, queue.ErrQueueFull) {
+				continue // this entry exists to meet a full queue (an ingress webhook refused with 503 before the publish)
+			}
 			out.Err = "setup enqueue: " + err.Error()
 			return
 		}
